@@ -78,7 +78,7 @@ class RotationRng(Machine):
                        "negative_angle", "beyond_one_turn", "radians", "tcoords", "returned_transform_mutated",
                        "about_centre_scale", "about_centre_rotate", "about_centre_shear", "about_centre_transform",
                        "scale_factory", "scale_factory_zero_refused", "passed_array_mutated",
-                       "radians_beyond_360", "quat_from_existing_rotation")
+                       "radians_beyond_360", "quat_from_existing_rotation", "about_centre_per_axis_scale")
 
     @classmethod
     def swarm(cls, rng, tier):
@@ -314,9 +314,15 @@ class RotationRng(Machine):
         in_deg = op["deg"] % 2 == 0
         theta = deg if in_deg else math.radians(deg)
         if which == 0:
-            sc = float(np.exp(g.uniform(-1, 1)))
-            t = scale_about_centre(obj, sc)
-            L = sc * np.eye(d)
+            if op["mutate"] % 3 == 2:
+                f = np.exp(g.uniform(-1, 1, size=d))      # the documented (n_dims,) per-axis form
+                t = scale_about_centre(obj, f.copy())
+                L = np.diag(f)
+                self.ctx.probe("about_centre_per_axis_scale")
+            else:
+                sc = float(np.exp(g.uniform(-1, 1)))
+                t = scale_about_centre(obj, sc)
+                L = sc * np.eye(d)
             name = "scale"
         elif which == 1:
             t = rotate_ccw_about_centre(obj, theta, degrees=in_deg)
